@@ -261,6 +261,13 @@ def transform_repl(rng, scn):
     return dict(kind='replication', k=[rng.randint(1, 5) for _ in range(scn['n'])])
 
 
+def transform_repl_const(rng, scn):
+    """the same multiplicity for every row (2, 3 or 5; 1 as a control: weights of ones against no weights): with unit base weights the
+    weight vector is CONSTANT, an instance of C12_weights_replication like any other (a constant weight vector is not 'no weights': it
+    changes the balance between the data and the penalty)"""
+    return dict(kind='replication', constant=True, k=[rng.choice([2, 3, 5, 2, 3, 5, 1])] * scn['n'])
+
+
 def apply_maps(X, maps):
     X2 = np.array(X, dtype=float, copy=True)
     for f_, (a, b) in maps.items():
@@ -552,7 +559,7 @@ def run(res):
                 'by-variables, lists of penalties, lam 1e-4..1e4) x weights {none, float32, integer}; each scenario is refitted with tol=1e-10 on '
                 '(a) a random row permutation, (b) every feature that enters only through spline bases mapped by x -> a x + b, a in 1e-6..1e6, '
                 '|b| up to 1e6 knot ranges (query points mapped likewise; inside the training range for cp terms: S10), (c) integer multiplicities '
-                '1..5 as weights versus replicated rows, and LinearGAM scenarios with estimated scale on (d) c*y, c in +-1e-6..1e6, and y1 + y2; '
+                '1..5 as weights versus replicated rows (random per row, and the same multiplicity 2, 3, 5 or 1 for every row with unit base weights), and LinearGAM scenarios with estimated scale on (d) c*y, c in +-1e-6..1e6, and y1 + y2; '
                 'compared: predict_mu on the training rows and 12 further query rows, edof, and for (d) scale, GCV, cov, p-values; only '
                 'converged pairs of fits are compared.  For LinearGAM the final coefficients of the original fit are also checked, in exact '
                 'dyadic arithmetic in Coq, to solve the captured normal equations of the transformed fit.  A case is non-trivial when the '
@@ -560,6 +567,7 @@ def run(res):
     common.standard_prove(res, 'Props/C12.v', gen_targets=['dists', 'stats'], extra=['Model/C01Check.vo'])
     warnings.simplefilter('ignore')
     cross, cross_meta = [], []
+    crng = common.rng_for(res.seed, PROP, 'constant-multiplicity')
     status = {}
     nlin = 0
     for cls in gen_models.CLASSES:
@@ -576,25 +584,28 @@ def run(res):
                 if not isinstance(e, ValueError):
                     res.notes.append('fit raised %s: %s (scenario %s)' % (type(e).__name__, str(e)[:120], repr(scn['specs'])[:300]))
                 continue
-            for mk in (transform_perm, transform_affine, transform_repl):
-                tr = mk(rng, scn)
+            for mk in (transform_perm, transform_affine, transform_repl, transform_repl_const):
+                # the constant-multiplicity relation has its own random stream (so the scenarios of the other relations are unchanged) and
+                # unit base weights (so that the weight vector handed to fit is constant)
+                rng_, scn_ = (crng, dict(scn, w=None)) if mk is transform_repl_const else (rng, scn)
+                tr = mk(rng_, scn_)
                 kind = tr['kind']
                 if kind == 'affine' and not tr['maps']:
                     res.count('affine: no feature enters only through spline bases')
                     continue
-                st, info = run_relation(res, rng, scn, tr, base=base, capture=capture)
-                res.count('%s %s' % (kind, st))
+                st, info = run_relation(res, rng_, scn_, tr, base=base, capture=capture)
+                res.count('%s%s %s' % (kind, ' (constant multiplicity %d)' % tr['k'][0] if tr.get('constant') else '', st))
                 status.setdefault(kind, []).append(st)
                 if st.startswith('skipped'):
                     continue
                 nontriv = {'permutation': lambda: tr['perm'] != sorted(tr['perm']), 'affine': lambda: True,
                            'replication': lambda: max(tr['k']) > 1}[kind]()
-                res.case(repr((cls, kind, i, repr(scn['specs']))), nontrivial=nontriv,
+                res.case(repr((cls, kind + ('-const' if tr.get('constant') else ''), i, repr(scn['specs']))), nontrivial=nontriv,
                          sample=dict(d, transform={k_: (v if k_ != 'perm' and k_ != 'k' else v[:8]) for k_, v in tr.items()},
                                      compared={nm: v for nm, v, _ in info['checks']}) if i == 1 else None)
                 res.count('%s %s' % (cls, kind))
                 if capture and info['it0'] is not None and info['it1'] is not None and not gam_has_escalation(info):
-                    cross.append(cross_case(dict(scn), info['it1'], info['it0'], min_tole=-20 if kind == 'replication' else None))
+                    cross.append(cross_case(dict(scn_), info['it1'], info['it0'], min_tole=-20 if kind == 'replication' else None))
                     cross_meta.append(dict(d, transform=kind))
             if cls == 'LinearGAM' and 'scale' not in scn['kw']:
                 st = linear_in_y(res, rng, scn)
